@@ -994,6 +994,51 @@ impl HttpContext {
         );
     }
 
+    /// Strips the proxy-owned identity fields from the trailer section of a
+    /// request.
+    ///
+    /// `on_request_headers` only runs on the header section, so the fields it
+    /// rewrites or generates (`X-Forwarded-For`, `Forwarded`, `X-Real-IP`,
+    /// `X-Forwarded-Proto`, `X-Forwarded-Port`, `X-Request-Id` and the
+    /// correlation header) could otherwise be supplied by the client as
+    /// trailers of a chunked H1 request or in an H2 trailer HEADERS frame and
+    /// reach a backend that merges trailers into its header view. RFC 9110
+    /// §6.5.1 forbids such fields in trailers; they are elided in place.
+    ///
+    /// `first_block` is the index of the first block appended by the parsing
+    /// step that just ran; `in_trailers` tells whether that step started
+    /// inside the trailer section (H1 `Trailers` phase, H2 trailer frame).
+    pub fn elide_request_trailer_identity(
+        &self,
+        request: &mut GenericHttpStream,
+        first_block: usize,
+        mut in_trailers: bool,
+    ) {
+        if !matches!(request.kind, kawa::Kind::Request) {
+            return;
+        }
+        let buf = request.storage.buffer();
+        for block in request.blocks.iter_mut().skip(first_block) {
+            match block {
+                kawa::Block::Flags(kawa::Flags { end_body: true, .. }) => in_trailers = true,
+                kawa::Block::Header(header) if in_trailers && !header.is_elided() => {
+                    let key = header.key.data(buf);
+                    if compare_no_case(key, b"X-Forwarded-For")
+                        || compare_no_case(key, b"Forwarded")
+                        || compare_no_case(key, b"X-Real-IP")
+                        || compare_no_case(key, b"X-Forwarded-Proto")
+                        || compare_no_case(key, b"X-Forwarded-Port")
+                        || compare_no_case(key, b"X-Request-Id")
+                        || compare_no_case(key, self.sozu_id_header.as_bytes())
+                    {
+                        header.elide();
+                    }
+                }
+                _ => {}
+            }
+        }
+    }
+
     /// Callback for response:
     ///
     /// - edit headers (connection, set-cookie, sozu-id)
